@@ -24,6 +24,7 @@ type World struct {
 	cs      *Contracts
 	fset    *token.FileSet
 	typeIDs map[string]int
+	typeByKey map[string]types.Type
 	gaddr   map[*ssa.Global]string
 	ufs     map[string]string
 	fnIndex map[string]*ssa.Function // pkg::key -> function
